@@ -32,8 +32,8 @@ CHECKS = {
     "C07": ("posts and loop invariants of Store::from(Vec), from_iter, extend, append and the queue-level wrappers: wf, identity tables, other queue emptied, stored item kept under both extend strategies, heap order re-established; "
             "size_hint is an unconstrained stub, so every obligation holds for every hint; capacity arguments derived from hints must satisfy the no-panic precondition of reserve/with_capacity.",
             "4 C07", "legal lower bound + current length <= 2^60-1 is an explicit assume (listed); "),
-    "C08": ("retain_mut: the predicate is called once on every stored entry in slot order and exactly the entries it accepted stay, as it left them (post.answers over f.ensures, through the IterMut2 prophecy and R19 with the recorded answers), order re-established; IterMut::next (slot handed out = cursor slot, prophecy of what is written), IterMut::drop (order); swap_remove_if and the pop_if family: returned pair = slot as the predicate left it, removed iff the predicate returned true (pop_if_decided), kept with the written priority otherwise, order restored; change_priority_by stores what the setter left.",
-            "4 C08", "Store::retain (the Fn(&I,&P) adapter) has an assumed contract; FnMut / FnOnce closures are relations between arguments and result in Verus (a closure's own state is not tracked); IterMut2 / retain2-with-recorded-answers stub contracts (audited); "),
+    "C08": ("retain: one answer per stored entry, answer j is the predicate's on entry j, exactly the accepted entries stay unchanged (post.answers, Store::retain's adapter body verified through R21); retain_mut: the predicate is called once on every stored entry in slot order and exactly the entries it accepted stay, as it left them (post.answers over f.ensures, through the IterMut2 prophecy and R19 with the recorded answers), order re-established; IterMut::next (slot handed out = cursor slot, prophecy of what is written), IterMut::drop (order); swap_remove_if and the pop_if family: returned pair = slot as the predicate left it, removed iff the predicate returned true (pop_if_decided), kept with the written priority otherwise, order restored; change_priority_by stores what the setter left.",
+            "4 C08", "the FnMut(&I,&P) bound of retain is verified as Fn(&I,&P) (R21, so that the one-line adapter of Store::retain is verified instead of assumed); FnMut / FnOnce closures are relations between arguments and result in Verus (a closure's own state is not tracked); IterMut2 / retain2-with-recorded-answers stub contracts (audited); "),
     "C09": ("cursor contracts of IterMut::next / next_back / len / size_hint: the slot handed out is the cursor slot and the cursor strictly advances, so slots are pairwise distinct; exact remaining length.",
             "4 C09", "raw-pointer reborrow (R6 __launder) trusted as value identity; "),
     "C10": ("wf is a precondition wherever a priority is fetched for comparison or user code is called and an invariant of every sift loop; every function is safe from wf alone. Verus discharges these, including wf at every call of a user closure (crash-point assertions) and the leak-safety posts of IterMut::new / iter_mut / drain; a generated audit obligation per function forbids handing a user-supplied callable or iterator to an IndexMap method (user code then only runs at call sites the verifier sees). The step to 'safe after a caught panic' is a stated meta-argument.",
